@@ -105,6 +105,9 @@ class Carrier(np.ndarray):
 
     def copy(self, form=None, frame=None, same=False):
         new = self._clone_meta(np.ndarray.copy(self).view(type(self)))
+        if frame is not None and _name(frame) != _name(self.frame) and form is not None:
+            # frame first (in cartesian), then form -- same order as StateVector.copy
+            return self.copy(frame=frame).copy(form=form)
         if form is not None and self.form is not None and _name(form) != _name(self.form):
             if hasattr(self.form, "steps"):
                 from beyond.orbits.forms import get_form
@@ -116,9 +119,22 @@ class Carrier(np.ndarray):
                 raise NotImplementedError(f"Carrier.copy(form={form}) from {self.form}")
         if frame is not None and _name(frame) != _name(self.frame):
             conv = (self._extra or {}).get("frame_convert")
-            if conv is None:
+            if conv is not None:
+                new = conv(new, frame)
+            elif hasattr(self.frame, "transform"):
+                # the real Frame.transform of beyond (what the StateVector.frame setter calls)
+                if isinstance(frame, str):
+                    from beyond.frames.frames import get_frame
+                    frame = get_frame(frame)
+                keep = new.form
+                new = self.frame.transform(new, frame)
+                new.__dict__["frame"] = frame
+                if keep is not None:
+                    new.__dict__["form"] = keep
+            else:
                 raise NotImplementedError(f"Carrier.copy(frame={frame}) from {self.frame}")
-            new = conv(new, frame)
+            if form is not None:
+                return new.copy(form=form)
         return new
 
     def __getattr__(self, name):
